@@ -141,7 +141,20 @@ def run_shard(desc) -> Acc:
     elog = ExcLog()
     lg = logging.getLogger("bellows.ezsp")
     lg.addHandler(elog)
-    lg.setLevel(logging.ERROR)
+    # a third of the shards run with DEBUG logging on (records are formatted by the sink; the handler
+    # above still keeps only errors / handler exceptions)
+    lg.setLevel(logging.DEBUG if desc.get("debuglog") else logging.ERROR)
+    if desc.get("debuglog"):
+        from ..logmode import FormatSink
+
+        sink_ = FormatSink()
+        lg.addHandler(sink_)
+        for nm_ in ("bellows.zigbee", "bellows.uart", "bellows.ash"):
+            l2 = logging.getLogger(nm_)
+            l2.setLevel(logging.DEBUG)
+            l2.propagate = False
+            l2.addHandler(sink_)
+        acc.hit("debuglog_shards")
     lg.propagate = False
     acc.hit("op_" + op)
 
@@ -423,7 +436,20 @@ def run_overlap(desc) -> Acc:
     elog = ExcLog()
     lg = logging.getLogger("bellows.ezsp")
     lg.addHandler(elog)
-    lg.setLevel(logging.ERROR)
+    # a third of the shards run with DEBUG logging on (records are formatted by the sink; the handler
+    # above still keeps only errors / handler exceptions)
+    lg.setLevel(logging.DEBUG if desc.get("debuglog") else logging.ERROR)
+    if desc.get("debuglog"):
+        from ..logmode import FormatSink
+
+        sink_ = FormatSink()
+        lg.addHandler(sink_)
+        for nm_ in ("bellows.zigbee", "bellows.uart", "bellows.ash"):
+            l2 = logging.getLogger(nm_)
+            l2.setLevel(logging.DEBUG)
+            l2.propagate = False
+            l2.addHandler(sink_)
+        acc.hit("debuglog_shards")
     lg.propagate = False
     acc.hit("op_overlap")
 
